@@ -40,9 +40,13 @@ def dbs():
 def db_cheap():
     out = []
     for n, db in dbs():
+        ns = db.names_sorted
         out.append((n, len(db.id_map), len(db.name_map), len(db.synonym_map), len(db.mono_mass_map),
-                    len(db.avg_mass_map), bool(db.use_synonyms), len(db.names_sorted), id(db.id_map),
-                    id(db.name_map)))
+                    len(db.avg_mass_map), bool(db.use_synonyms), len(ns), id(db.id_map),
+                    id(db.name_map),
+                    # the ORDER of the name index matters (longest name first is what the glycan tokenizer relies
+                    # on); ties inside one length are hash-seed dependent, so only the lengths are fingerprinted
+                    tuple(len(x) for x in ns[:64]), id(ns)))
     return tuple(out)
 
 
@@ -59,6 +63,7 @@ def db_full(names=None):
         h.update(repr(sorted(db.name_map)).encode())
         h.update(repr(sorted(db.synonym_map)).encode())
         h.update(repr(sorted(db.names_sorted)).encode())  # tie order inside is hash-seed dependent: sort
+        h.update(repr([len(x) for x in db.names_sorted]).encode())   # ... but the order of the lengths is content
         h.update(repr((len(db.mono_mass_map), len(db.avg_mass_map), bool(db.use_synonyms))).encode())
         out[n] = h.hexdigest()[:16]
     return out
